@@ -32,12 +32,8 @@ func probeCases() map[string]Case {
 	m["findings/C02-F02.json"] = one(gen.Prog(gen.Set("x", gen.Str("abc", 0)), gen.N("idx", gen.Var("x"), gen.Int(5))))
 	// C02-F02b  32-character string indexed at 32
 	m["findings/C02-F02b.json"] = one(gen.Prog(gen.N("idx", gen.Str("abcdefghijklmnopqrstuvwxyzabcdef", 0), gen.Int(32))))
-	// C02-F04  '1' + ('xy')[0][0:]
-	m["findings/C02-F04.json"] = one(gen.Prog(gen.N("slice", gen.Bin("+", gen.Str("1", 0), gen.N("idx", gen.Str("xy", 0), gen.Int(0))), gen.Int(0), gen.None())))
 	// C02-F05  i=0; while i<25 { i=i+1; if 1 { continue } }; i
 	m["findings/C02-F05.json"] = one(gen.Prog(append(loopN("i", 25, gen.N("if", gen.Int(1), gen.Block(gen.N("continue")), gen.None())), gen.Var("i"))...))
-	// C02-F06  x = [1]; toStr([x, x])
-	m["findings/C02-F06.json"] = one(gen.Prog(gen.Set("x", gen.N("arr", gen.Int(1))), gen.Call(gen.Var("toStr"), gen.N("arr", gen.Var("x"), gen.Var("x")))))
 	// C02-F07  i=0; while i<2 { i=i+1; &w = this.x ?? 7; r = w; &w.x = 5 }; r
 	m["findings/C02-F07.json"] = one(gen.Prog(append(loopN("i", 2,
 		&gen.Node{K: "setc", S: "w", Kids: []*gen.Node{gen.Bin("??", &gen.Node{K: "this", S: "x"}, gen.Int(7))}},
@@ -74,6 +70,13 @@ func replayCases() map[string]Case {
 		gen.N("arr", gen.Bin("==", v("x"), v("y")), gen.Bin("!=", v("x"), v("y")), gen.Bin("==", v("y"), v("x")))))
 	// 2^62 * [1, 2]  — element count overflow (was C02-F03, repaired in /repo 02fb354)
 	m["replays/C02/array-repeat-overflow.json"] = one(gen.Prog(gen.Bin("*", gen.Int(1<<62), gen.N("arr", i(1), i(2)))))
+	// '1' + ('xy')[0][0:] and x=[[1,2]]; [5] + x[0][1:]  — a slice suffix after an index inside a larger
+	// expression compiled in the wrong order (was C02-F04, repaired in /repo 6177a5c)
+	m["replays/C02/index-then-slice.json"] = one(gen.Prog(
+		gen.Set("x", gen.N("arr", gen.N("arr", i(1), i(2)))),
+		gen.N("arr",
+			gen.N("slice", gen.Bin("+", gen.Str("1", 0), gen.N("idx", gen.Str("xy", 0), i(0))), i(0), gen.None()),
+			gen.N("slice", gen.Bin("+", gen.N("arr", i(5)), gen.N("idx", v("x"), i(0))), i(1), gen.None()))))
 	// GUIDE: variables of a function live in their own space → [10, 2]
 	m["replays/C02/guide-function-scope.json"] = one(gen.Prog(gen.Set("x", i(2)),
 		&gen.Node{K: "func", S: "g1", Kids: []*gen.Node{gen.Block(gen.Set("x", i(10)), gen.N("ret", v("x")))}},
